@@ -1,21 +1,208 @@
 package rules
 
-import "hrverif/internal/core"
+import (
+	"fmt"
+	"strconv"
+	"strings"
+
+	"golang.org/x/tools/go/ssa"
+
+	"hrverif/internal/absint"
+	"hrverif/internal/core"
+)
 
 func init() {
 	register(&Property{
 		ID:    "C09",
-		Rules: []string{"C09-R1", "C09-R2", "C09-R3", "C09-R4", "C09-R5"},
+		Rules: []string{"C09-R1", "C09-R2", "C09-R3", "C09-R4", "C09-R5", "C09-R6", "C09-R7"},
 		Explain: "Decides how malformed entries reach the user: C09-R1 the line number is a loop-carried counter with 0 on entry and the same φ+1 on every back edge of the Scan loop (so blank, comment and note lines are counted); " +
 			"C09-R2 the quoted line is the raw Scanner.Text() result; C09-R3 every ParseCallback of the tree, given an error, stops with an error deriving from it or prints it and continues; " +
 			"C09-R4 lint writes its success message exactly when no malformed line was reported (and not silent); " +
-			"C09-R5 an error callback that does not stop leaves the open record in place, so every later malformed line of the record is still reported.",
-		NotDecided: "the wording of the messages, and which lines the parser classifies as malformed (C04)",
+			"C09-R5 an error callback that does not stop leaves the open record in place, so every later malformed line of the record is still reported; " +
+			"C09-R6 the Error() text of ErrorBadSyntax and ErrorConversion contains Line unaltered (%s/%v/concatenation, not %q or a truncating verb) and LineNumber in decimal; " +
+			"C09-R7 the line classification table (C04-R1) gives every malformed line its error event on every occurrence.",
+		NotDecided: "the wording of the messages beyond containing the line and its number, and the arithmetic of what counts as a number (strconv.ParseFloat)",
 		Run: func(c *core.Ctx) {
 			ruleLineCounter(c, "C09-R1")
-			analyseParserLoop(c, map[string]bool{"C09-R2": true, "C09-R5": true})
+			analyseParserLoop(c, map[string]bool{"C09-R2": true, "C09-R5": true, "C09-R7": true})
 			ruleCallbackConsumers(c, map[string]bool{"C09-R3": true})
 			ruleLintVerdict(c, "C09-R4")
+			ruleErrorText(c, "C09-R6")
 		},
 	})
+}
+
+// ruleErrorText is C09-R6: the message of every positioned parse error contains
+// the offending line unaltered and its line number in decimal. A verb that
+// re-encodes the line (%q, %x, %.Ns, strconv.Quote) quotes something other than
+// what is in the file whenever the line has a quote, a tab or a non-ASCII letter.
+func ruleErrorText(c *core.Ctx, rule string) {
+	pkg := core.LibPath + "/parser"
+	found := 0
+	for _, tn := range []string{"ErrorBadSyntax", "ErrorConversion"} {
+		fn := c.P.LookupMethod(pkg, tn, "Error")
+		if !requireAnchor(c, rule, "parser."+tn+".Error", fn != nil) {
+			continue
+		}
+		found++
+		fname := core.FuncName(fn)
+		x := newExec(c)
+		verb := map[string]string{} // field -> how it is rendered
+		note := func(field, how string) {
+			if prev, ok := verb[field]; ok && prev == "verbatim" {
+				return
+			}
+			verb[field] = how
+		}
+		fieldOf := func(v absint.Value) string {
+			if iv, ok := v.(*absint.Iface); ok {
+				v = iv.V
+			}
+			l := locOf(x, v)
+			if i := strings.LastIndex(l, "·"); i >= 0 {
+				return l[i+len("·"):]
+			}
+			return ""
+		}
+		var leaves func(s *absint.State, v absint.Value)
+		leaves = func(s *absint.State, v absint.Value) {
+			if f := fieldOf(v); f != "" {
+				note(f, "verbatim")
+				return
+			}
+			t, ok := v.(*absint.Term)
+			if !ok {
+				return
+			}
+			switch {
+			case t.Op == "+":
+				for _, a := range t.Args {
+					leaves(s, a)
+				}
+			case t.Op == "call:strconv.Itoa" || t.Op == "call:strconv.FormatInt":
+				if len(t.Args) > 0 {
+					if t.Op == "call:strconv.FormatInt" && (len(t.Args) < 2 || t.Args[1].Key() != "c:10") {
+						if f := fieldOf(t.Args[0]); f != "" {
+							note(f, "a base other than 10")
+						}
+						return
+					}
+					leaves(s, t.Args[0])
+				}
+			case strings.HasPrefix(t.Op, "call:strconv.Quote"):
+				if len(t.Args) > 0 {
+					if f := fieldOf(t.Args[0]); f != "" {
+						note(f, t.Op[5:])
+					}
+				}
+			case t.Op == "convert" || strings.HasPrefix(t.Op, "convert"):
+				for _, a := range t.Args {
+					leaves(s, a)
+				}
+			}
+		}
+		x.Hooks.Call = func(x *absint.Exec, s *absint.State, site ssa.CallInstruction, callee *ssa.Function, fnv absint.Value, args []absint.Value) (absint.Value, bool) {
+			if callee == nil {
+				return nil, false
+			}
+			name := callee.String()
+			if name != "fmt.Sprintf" && name != "fmt.Sprint" && name != "fmt.Sprintln" && name != "fmt.Errorf" {
+				return nil, false
+			}
+			var vals []absint.Value
+			rest := args
+			format := ""
+			if name == "fmt.Sprintf" || name == "fmt.Errorf" {
+				cst, ok := args[0].(absint.Const)
+				if !ok || cst.V == nil {
+					return nil, false
+				}
+				format, _ = strconv.Unquote(cst.V.ExactString())
+				rest = args[1:]
+			}
+			for _, a := range rest {
+				if t, ok := a.(*absint.Term); ok && t.Op == "slice" {
+					if p, ok := t.Args[0].(absint.Ptr); ok {
+						for i := 0; i < 8; i++ {
+							hv, ok := s.Heap[fmt.Sprintf("%s[c:%d]", p.Loc, i)]
+							if !ok {
+								break
+							}
+							vals = append(vals, hv)
+						}
+					}
+				}
+			}
+			if format == "" {
+				for _, v := range vals {
+					leaves(s, v)
+				}
+				return nil, false
+			}
+			// tokenise the verbs
+			ai := 0
+			for i := 0; i < len(format); i++ {
+				if format[i] != '%' {
+					continue
+				}
+				j := i + 1
+				for j < len(format) && strings.IndexByte("+-# 0123456789.[]*", format[j]) >= 0 {
+					j++
+				}
+				if j >= len(format) {
+					break
+				}
+				v := format[j]
+				flags := format[i+1 : j]
+				i = j
+				if v == '%' {
+					continue
+				}
+				if ai >= len(vals) {
+					break
+				}
+				arg := vals[ai]
+				ai++
+				f := fieldOf(arg)
+				if f == "" {
+					// a nested rendering
+					if (v == 's' || v == 'v') && flags == "" {
+						leaves(s, arg)
+					}
+					continue
+				}
+				isInt := f == "LineNumber"
+				switch {
+				case flags == "" && (v == 'v' || (v == 's' && !isInt) || (v == 'd' && isInt)):
+					note(f, "verbatim")
+				case flags != "" && strings.Trim(flags, "0123456789- ") == "" && (v == 's' || v == 'd' || v == 'v'):
+					// padding only: the text is still contained unaltered
+					note(f, "verbatim")
+				default:
+					note(f, "%"+flags+string(v))
+				}
+			}
+			return nil, false
+		}
+		terms := x.Run(x.NewState(fn, nil, nil))
+		if !account(c, x, rule, fn) {
+			continue
+		}
+		for _, tm := range terms {
+			if len(tm.Ret) == 1 {
+				leaves(tm.State, tm.Ret[0])
+			}
+		}
+		for _, f := range []string{"Line", "LineNumber"} {
+			how, ok := verb[f]
+			switch {
+			case !ok:
+				c.Violate(rule, fname, f, c.P.Pos(fn.Pos()), "the message does not contain the error's "+f+": the user is not shown "+map[string]string{"Line": "the malformed line", "LineNumber": "where the malformed line is"}[f], nil)
+			case how != "verbatim":
+				c.Violate(rule, fname, f, c.P.Pos(fn.Pos()), "the message renders "+f+" with "+how+", which re-encodes it: a line containing a quote, a tab, a backslash or a non-ASCII letter is not quoted as it stands in the file", nil)
+			default:
+				c.Discharge(rule, fname, f, c.P.Pos(fn.Pos()), "the message contains "+f+" unaltered")
+			}
+		}
+	}
 }
